@@ -681,7 +681,7 @@ func hasBytePrefix(b []byte, prefix string) bool {
 }
 
 func contains(b []byte, search string) bool {
-	for i := 0; i < len(b)-len(search); i++ {
+	for i := 0; i <= len(b)-len(search); i++ {
 		if hasBytePrefix(b[i:], search) {
 			return true
 		}
